@@ -209,17 +209,44 @@ func ruleDELTRACK(p *Program, r *Reporter) {
 		if !ok || a.ctor {
 			continue
 		}
-		n++
-		bad := ""
-		for _, f := range factsAt(mu.Block()) {
-			cond, _ := normFact(f)
-			if dependsOnCallOver(cond, cacheF, map[ssa.Value]bool{}, 0) {
-				bad = p.Pos(cond.Pos())
+		// the places where a row is recorded: the store itself and, when it lives in a
+		// small recording helper (markDeleted), every call of that helper
+		type site struct {
+			fn  *ssa.Function
+			ins ssa.Instruction
+		}
+		sites := []site{{a.fn, mu}}
+		if a.fn.Parent() == nil && !isExportedEntry(a.fn) {
+			for _, cs := range p.CallSitesOf(a.fn) {
+				if _, plain := cs.instr.(*ssa.Call); plain {
+					sites = append(sites, site{cs.caller, cs.instr})
+				}
+			}
+			if len(sites) > 1 {
+				sites = sites[1:] // the helper's own store is unconditional bookkeeping: judged at its callers
+				// unless the helper itself tests the cache
+				for _, f := range factsAt(mu.Block()) {
+					cond, _ := normFact(f)
+					if dependsOnCallOver(cond, cacheF, map[ssa.Value]bool{}, 0) {
+						sites = append(sites, site{a.fn, mu})
+						break
+					}
+				}
 			}
 		}
-		r.Ob(id, funcName(a.fn), "DeletedRows recorded", mu.Pos(), bad == "", true,
-			ifs(bad == "", "a deleted row is recorded whatever the transaction cache holds",
-				"recording a row as deleted is conditional on the contents of the transaction cache (test at "+bad+"): a row the transaction had already touched is not recorded, and the commit-time index check then treats its index values as still taken"))
+		for _, st := range sites {
+			n++
+			bad := ""
+			for _, f := range factsAt(st.ins.Block()) {
+				cond, _ := normFact(f)
+				if dependsOnCallOver(cond, cacheF, map[ssa.Value]bool{}, 0) {
+					bad = p.Pos(cond.Pos())
+				}
+			}
+			r.Ob(id, funcName(st.fn), "DeletedRows recorded", st.ins.Pos(), bad == "", true,
+				ifs(bad == "", "a deleted row is recorded whatever the transaction cache holds",
+					"recording a row as deleted is conditional on the contents of the transaction cache (test at "+bad+"): a row the transaction had already touched is not recorded, and the commit-time index check then treats its index values as still taken"))
+		}
 	}
 	if n < 2 {
 		r.Anchor(id, fmt.Sprintf("stores into Transaction.DeletedRows: %d, expected >= 2", n))
